@@ -113,7 +113,7 @@ def make_sequences(n, sites, rng, style, dup=0):
     if dup:
         # repeated columns: patterns with weight > 1 (appended after all other draws)
         cols = cols + [list(cols[(3 * j) % len(cols)]) for j in range(dup)]
-    return ["".join(cols[k][i] for k in range(sites)) for i in range(n)]
+    return ["".join(cols[k][i] for k in range(len(cols))) for i in range(n)]
 
 
 def _site_model(recipe):
@@ -269,6 +269,13 @@ class Machine:
             self.like.rescale = True
             self.like.lp_needs_update = True
             self.log.add("force_rescale")
+            return True
+        if kind == "reset_flag":
+            # the flag is a public attribute: a user may switch rescaling off again (the model must then
+            # find out by itself, once more, that it needs it)
+            self.like.rescale = False
+            self.like.lp_needs_update = True
+            self.log.add("reset_flag")
             return True
         if kind == "eval":
             return self.eval()
@@ -458,8 +465,10 @@ def generate(seed, index, tier):
             ops.append(op)
         elif u < 0.93:
             ops.append({"op": "eval"})
-        else:
+        elif u < 0.97:
             ops.append({"op": "force_rescale"})
+        else:
+            ops.append({"op": "reset_flag"})
     ops.append({"op": "eval"})
     w2 = st["workload2"]
     hard = "deep" if sc.get("deep") is not None else ("subnormal" if sc.get("subnormal") is not None else None)
@@ -470,6 +479,10 @@ def generate(seed, index, tier):
         tail = [{"op": "set", "scales": [worst]}, {"op": "eval"}, {"op": "set", "scales": [sc["normal"]]}, {"op": "eval"}, {"op": "set", "scales": [sc[hard]]}, {"op": "eval"},
                 {"op": "set", "scales": [sc["normal"], sc["normal"]]}, {"op": "eval"}, {"op": "set", "scales": [sc["normal"], sc[hard]]}, {"op": "eval"}]
         ops += tail
+        if w2.bernoulli(0.5):
+            # second switch of the same object: flag reset by hand, then an input that needs rescaling again
+            ops += [{"op": "set", "scales": [sc["normal"]]}, {"op": "eval"}, {"op": "reset_flag"}, {"op": "set", "scales": [worst]}, {"op": "eval"},
+                    {"op": "set", "scales": [sc[hard]]}, {"op": "eval"}, {"op": "reset_flag"}, {"op": "set", "scales": [sc["normal"], sc[hard]]}, {"op": "eval"}]
         if sc.get("drop") is not None:
             ops += [{"op": "set", "scales": [sc["normal"]]}, {"op": "eval"}, {"op": "eval"}, {"op": "set", "scales": [sc["drop"]]}, {"op": "eval"},
                     {"op": "set", "scales": [sc["normal"], sc["normal"]]}, {"op": "eval"}, {"op": "set", "scales": [sc["drop"], sc["normal"]]}, {"op": "eval"}]
